@@ -28,6 +28,7 @@ CONSTANTS
                   \*   "cancel_cb": a callback cancels the context while the first event of this connection is being
                   \*   dispatched; the body then ends cleanly (nothing is cancelled when the body holds no event)
                   \*   "errwrapeof": a read error that wraps io.EOF (a transport wrapper's): a read error, not a clean end
+                  \*   "erriou": the read error io.ErrUnexpectedEOF (net/http: body shorter than announced): a read error like any other
                   \*   "cancel_eof": the body ends cleanly at the very instant the context is cancelled
                   \*   "errctx": a read error that is a context error (a transport's own deadline) while the
                   \*   request's context is alive - an ordinary, retryable read error
@@ -142,14 +143,16 @@ Read ==
           /\ IF st.status = "cancelled" THEN Done(R("ctx")) /\ UNCHANGED curErr
              ELSE /\ curErr' = (CASE st.status = "eof" -> "eof"
                                   [] st.status = "unexpected_eof" -> "unexpected_eof"
-                                  [] st.status = "read_error" -> IF cur.end = "errctx" THEN "errctx" ELSE IF cur.end = "errwrapeof" THEN "wrapeof" ELSE "boom")
+                                  [] st.status = "read_error" -> IF cur.end = "errctx" THEN "errctx" ELSE IF cur.end = "errwrapeof" THEN "wrapeof"
+                                                                 ELSE IF cur.end = "erriou" THEN "iou" ELSE "boom")
                   /\ pc' = "next" /\ UNCHANGED result
     /\ everConnected' = TRUE
     /\ cur' = [cur EXCEPT !.ctxdone = (cur.end = "cancel_eof" \/
                                         (cur.end = "cancel_cb" /\ Interpret(cur.body, "clean", "conn", lastEventID).out # <<>>))]
     /\ UNCHANGED <<cfg, results, isRetry, attempts, reqs, waits, hist>>
 
-Grow(i) == IF cfg.maxInterval > 0 /\ i * EffMulNum >= cfg.maxInterval * EffMulDen THEN cfg.maxInterval
+\* (i * num >= max * den, written without a product that TLC's integers cannot hold: num may be HUGE, "a multiplier beyond anything")
+Grow(i) == IF cfg.maxInterval > 0 /\ i >= (cfg.maxInterval * EffMulDen + EffMulNum - 1) \div EffMulNum THEN cfg.maxInterval
            ELSE IF i >= (HUGE \div EffMulNum) * EffMulDen THEN HUGE    \* beyond what TLC's integers (and the driver's patience) hold
            ELSE (i \div EffMulDen) * EffMulNum + ((i % EffMulDen) * EffMulNum) \div EffMulDen   \* = floor(i * num / den), without overflow
 
@@ -207,7 +210,7 @@ Reason ==
       /\ (result.kind = "validator" => hist[Len(hist)].o \in {"reject", "reject_temp"})
       /\ (result.kind \in {"nogetbody", "getbodyerr"} => attempts >= 1 /\ cfg.body \in {"nogetbody", "failgetbody"})
       /\ (result.kind = "exhausted" =>
-            /\ result.err \in {"transport", "transport_ctx", "eof", "unexpected_eof", "boom", "errctx", "wrapeof"}
+            /\ result.err \in {"transport", "transport_ctx", "eof", "unexpected_eof", "boom", "errctx", "wrapeof", "iou"}
             /\ (cfg.maxRetries < 0 \/ numRetries = cfg.maxRetries))
 \* C11: a permanent failure is never followed by another attempt; a retryable one always by BackoffNext
 NoRetryAfterPermanent == \A i \in 1..(Len(hist) - 1) : hist[i].o \in {"reject", "reject_temp", "cancel_do", "cancel_wait"} => hist[i + 1].o = "reconnect"
